@@ -34,6 +34,7 @@ type CLIOpt struct {
 	Args      []string
 	Stdin     []byte
 	StdinFile string   // if set, stdin is this regular file
+	StdinSkip int64    // ... positioned at this offset (as after another process has consumed a prefix)
 	NoStdin   bool     // stdin is /dev/null
 	Env       []string // full environment (nil => minimal default)
 	Dir       string
@@ -69,6 +70,11 @@ func CLI(o CLIOpt) CLIResult {
 			return CLIResult{StartErr: err}
 		}
 		defer f.Close()
+		if o.StdinSkip > 0 {
+			if _, err := f.Seek(o.StdinSkip, 0); err != nil {
+				return CLIResult{StartErr: err}
+			}
+		}
 		cmd.Stdin = f
 	case o.NoStdin:
 		cmd.Stdin = nil
